@@ -107,14 +107,17 @@ pub fn vehicle_of(v: &Value, id: &str) -> Vehicle {
             time: TimeInterval { earliest: None, latest: if se == f64::MAX { None } else { Some(se) } },
         })
     };
+    // optional "cost_shift": s  => every cost rate is multiplied by 2^-s (exact in f64); callers multiply reported costs
+    // by 2^s again, so the integer-valued comparison is unchanged while the float magnitudes are tiny (tolerance-sensitive)
+    let k = if v["cost_shift"].is_null() { 1.0 } else { (0.5f64).powi(i64_of(&v["cost_shift"]) as i32) };
     Vehicle {
         profile: Profile::default(),
         costs: Costs {
-            fixed: costs[0] as f64,
-            per_distance: costs[1] as f64,
-            per_driving_time: costs[2] as f64,
-            per_waiting_time: costs[3] as f64,
-            per_service_time: costs[4] as f64,
+            fixed: costs[0] as f64 * k,
+            per_distance: costs[1] as f64 * k,
+            per_driving_time: costs[2] as f64 * k,
+            per_waiting_time: costs[3] as f64 * k,
+            per_service_time: costs[4] as f64 * k,
         },
         dimens,
         details: vec![VehicleDetail { start: Some(start), end }],
